@@ -46,7 +46,7 @@ func main() {
 	if os.Getenv("VERIF_CHILD") == "1" {
 		r := rep.New(id, *tier, seed, checks.Level[id])
 		fn(&checks.Ctx{R: r, Replay: *replay, Only: *only})
-		os.Exit(r.Finish())
+		os.Exit(100 + r.Finish())
 	}
 	os.Exit(supervise(id, *tier, seed))
 }
@@ -114,7 +114,8 @@ func supervise(id, tier string, seed int64) int {
 			code = 3
 		}
 	}
-	if code == 0 || code == 1 || code == 2 {
+	if code >= 100 && code <= 102 {
+		code -= 100
 		// child decided and wrote evidence itself
 		if st, _ := os.Stat(errPath); st != nil && st.Size() == 0 {
 			os.Remove(errPath)
